@@ -92,7 +92,7 @@ int *syn_highlight(char *ft, char *s)
 			}
 		}
 		sidx += cend;
-		flg = RE_NOTBOL;
+		flg = RE_NOTBOL | RE_PREV;
 	}
 	for (i = 0; i < n; i++)
 		att[i] = syn_merge(att[i], syn_ctx);
